@@ -209,8 +209,8 @@ class CylindricalSandwich(ExactSolver):
                     #
                     Rnmb = sp.jn(k, alphanm * self.b) + betanm * sp.yn(k, alphanm * self.b)
                     Rnma = sp.jn(k, alphanm * self.a) + betanm * sp.yn(k, alphanm * self.a)
-                    Anm = (1./2.) * (self.b**2 - m**2/alphanm**2) * Rnmb - \
-                      (1./2.) * (self.a**2 - m**2/alphanm**2) * Rnma
+                    Anm = (1./2.) * (self.b**2 - k**2/alphanm**2) * Rnmb**2 - \
+                      (1./2.) * (self.a**2 - k**2/alphanm**2) * Rnma**2
                     # Anm = CylindricalSandwich.Anm_analytic(self, self.a, self.b, k, m, alphanm, betanm)
                     Tnm = (4 * self.T1 / np.pi) * ((-1)**(k/2) / float(k)) * (1 / Anm) * \
                         quad(dTinRun, self.a, self.b, args=(k, m, alphanm, betanm))[0]
